@@ -1174,3 +1174,105 @@ mod tests {
         assert_eq!(expected_result, result);
     }
 }
+
+/// Verification hooks (compiled only with `--cfg maidsafe_safe_network_verif`): a constructor for
+/// the crate-private `Node` around a caller-driven `Network`, and pass-throughs to the private
+/// put-validation / query entry points, for the external /verif harness. Nothing here changes
+/// behaviour; with the cfg off none of it is compiled.
+#[cfg(maidsafe_safe_network_verif)]
+impl Node {
+    /// Build a `Node` around an existing `Network` handle (the caller owns the command receivers
+    /// and plays the swarm driver). No background task is started.
+    pub fn verif_new(
+        network: Network,
+        evm_network: EvmNetwork,
+        reward_address: RewardsAddress,
+        events_channel: NodeEventsChannel,
+    ) -> Self {
+        Node {
+            inner: Arc::new(NodeInner {
+                events_channel,
+                initial_peers: vec![],
+                network,
+                #[cfg(feature = "open-metrics")]
+                metrics_recorder: None,
+                reward_address,
+                evm_network,
+            }),
+        }
+    }
+
+    /// Pass-through to the private `calculate_get_closest_peers`.
+    pub fn verif_calculate_get_closest_peers(
+        peer_addrs: Vec<(PeerId, Vec<Multiaddr>)>,
+        target: NetworkAddress,
+        num_of_peers: Option<usize>,
+        range: Option<[u8; 32]>,
+    ) -> Vec<(NetworkAddress, Vec<Multiaddr>)> {
+        Self::calculate_get_closest_peers(peer_addrs, target, num_of_peers, range)
+    }
+}
+
+/// Public face of the verification hooks (`Node` itself is crate-private).
+#[cfg(maidsafe_safe_network_verif)]
+pub mod verif {
+    use super::*;
+    pub use crate::error::Error;
+    use libp2p::kad::Record;
+
+    /// Public handle on a crate-private `Node`.
+    #[derive(Clone)]
+    pub struct VerifNode(Node);
+
+    impl VerifNode {
+        /// See `Node::verif_new`.
+        pub fn new(
+            network: Network,
+            evm_network: EvmNetwork,
+            reward_address: RewardsAddress,
+            events_channel: NodeEventsChannel,
+        ) -> Self {
+            Self(Node::verif_new(
+                network,
+                evm_network,
+                reward_address,
+                events_channel,
+            ))
+        }
+
+        /// Pass-through to `Node::validate_and_store_record` (client put / unpaid update path).
+        pub async fn validate_and_store_record(&self, record: Record) -> Result<(), Error> {
+            self.0.validate_and_store_record(record).await
+        }
+
+        /// Pass-through to `Node::store_replicated_in_record` (replication path).
+        pub async fn store_replicated_in_record(&self, record: Record) -> Result<(), Error> {
+            self.0.store_replicated_in_record(record).await
+        }
+
+        /// Pass-through to `Node::handle_network_event` (spawns exactly what the node spawns).
+        pub fn handle_network_event(&self, event: NetworkEvent) {
+            self.0
+                .handle_network_event(event, &Arc::new(AtomicUsize::new(0)))
+        }
+
+        /// Pass-through to `Node::handle_query`.
+        pub async fn handle_query(
+            network: &Network,
+            query: Query,
+            payment_address: RewardsAddress,
+        ) -> Response {
+            Node::handle_query(network, query, payment_address).await
+        }
+    }
+
+    /// Pass-through to the private `Node::calculate_get_closest_peers`.
+    pub fn calculate_get_closest_peers(
+        peer_addrs: Vec<(PeerId, Vec<Multiaddr>)>,
+        target: NetworkAddress,
+        num_of_peers: Option<usize>,
+        range: Option<[u8; 32]>,
+    ) -> Vec<(NetworkAddress, Vec<Multiaddr>)> {
+        Node::verif_calculate_get_closest_peers(peer_addrs, target, num_of_peers, range)
+    }
+}
